@@ -23,6 +23,7 @@ type c12Scenario struct {
 	clients [][]Req
 	after   map[int]int // client index -> index of the client whose script must have been consumed (request bytes and FIN read by the server) before this one connects
 	allow   bool
+	maxB    int // > 0: preemption bound cap for this scenario (three-client scenarios: the bound-3 space is out of reach)
 	reset   func()
 	files   map[string][]byte // expected uploaded contents (path -> bytes)
 }
@@ -131,7 +132,7 @@ func c12Exec(t *testing.T, root string, sc c12Scenario, only int, prefix []int) 
 func TestC12(t *testing.T) {
 	r := NewReporter(t)
 	defer r.Done()
-	r.Rule("10 scenarios of 2-3 connections whose requests collide (same plain file, same generated image across member boundaries, CD images of different sector size, two directory enumerations, uploads into sibling files, churn, a client connecting while another one's teardown is running); scheduling points = every connection read/write/close, every accept and every leaf filesystem operation of the server goroutines; all interleavings with <= 2 (quick) / <= 3 (thorough) preemptions; oracle: each client's response stream equals the stream of its script run alone, connection closed, handle ledger empty, uploaded files exact; distinct by schedule (choice sequence)")
+	r.Rule("10 scenarios of 2-3 connections whose requests collide (same plain file, same generated image across member boundaries, CD images of different sector size, two directory enumerations, uploads into sibling files, churn, a client connecting while another one's teardown is running); scheduling points = every connection read/write/close, every accept and every leaf filesystem operation of the server goroutines; all interleavings with <= 2 (quick) / <= 3 (thorough; 2 for the three-client scenarios) preemptions; oracle: each client's response stream equals the stream of its script run alone, connection closed, handle ledger empty, uploaded files exact; distinct by schedule (choice sequence)")
 	w, _ := buildC02World(t, r)
 	defer w.Cleanup()
 	mkCDImage(w.Root, cdImg{name: "cd2336.bin", sector: 2336, sig: "psx", size: 0x200000}, 3)
@@ -160,11 +161,11 @@ func TestC12(t *testing.T) {
 		{name: "sibling-uploads", allow: true, reset: resetW, files: map[string][]byte{"w/a.bin": append(append([]byte{}, pa...), []byte("tail-a")...), "w/b.bin": pb}, clients: [][]Req{
 			{mkReq(opCreateFile, "/w/a.bin"), wrReq(pa), wrReq([]byte("tail-a"))},
 			{mkReq(opCreateFile, "/w/b.bin"), wrReq(pb), mkReq(opGetDirSize, "/d")}}},
-		{name: "aborted-transfer-then-two", failAt: map[int]int64{0: 70000}, clients: [][]Req{
+		{name: "aborted-transfer-then-two", maxB: 2, failAt: map[int]int64{0: 70000}, clients: [][]Req{
 			{mkReq(opOpenFile, "/plain/f131073.bin"), rdcReq(0, 131073)},
 			{mkReq(opOpenFile, "/plain/f65536.bin"), rdcReq(0, 65536), rdcReq(0, 65536)},
 			{mkReq(opOpenFile, "/plain/f65537.bin"), rdcReq(1, 65536), rdcReq(1, 65536)}}},
-		{name: "aborted-ordinary-read-then-two", failAt: map[int]int64{0: 30000}, clients: [][]Req{
+		{name: "aborted-ordinary-read-then-two", maxB: 2, failAt: map[int]int64{0: 30000}, clients: [][]Req{
 			{mkReq(opOpenFile, "/plain/f131073.bin"), rdReq(0, 131073)},
 			{mkReq(opOpenFile, "/plain/f65536.bin"), rdReq(0, 65536), rdReq(100, 1000)},
 			{mkReq(opOpenFile, "/plain/f65537.bin"), rdReq(1, 65536), rdReq(7, 900)}}},
@@ -179,7 +180,7 @@ func TestC12(t *testing.T) {
 		{name: "reconnect-during-teardown", after: map[int]int{1: 0}, clients: [][]Req{
 			{mkReq(opOpenFile, "/plain/f131073.bin"), rdcReq(0, 70000), mkReq(opOpenDir, "/d"), noargReq(opReadDirEntry)},
 			{mkReq(opOpenFile, "/plain/f65536.bin"), rdReq(0, 100), mkReq(opOpenDir, "/k3"), noargReq(opReadDirEntry), rdcReq(100, 1000), cdReq(0, 1)}}},
-		{name: "churn", clients: [][]Req{
+		{name: "churn", maxB: 2, clients: [][]Req{
 			{mkReq(opOpenFile, "/plain/f131073.bin"), rdcReq(0, 131073)},
 			{mkReq(opOpenFile, "/plain/f65536.bin"), rdcReq(0, 65536)},
 			{mkReq(opOpenFile, "/plain/f65537.bin"), rdcReq(1, 65536), rdReq(0, 10)}}},
@@ -188,7 +189,7 @@ func TestC12(t *testing.T) {
 	if r.Thorough() {
 		bound = 3
 	}
-	r.Extra("preemption_bound", bound)
+	r.Extra("preemption_bound", sprintf("%d (three-client scenarios: 2)", bound))
 	for _, sc := range scs {
 		if !c12Explore(t, r, w.Root, sc, bound, "C12") {
 			return
@@ -292,6 +293,9 @@ func c12Explore(t *testing.T, r *Reporter, root string, sc c12Scenario, bound in
 			}
 		}
 		return o.points
+	}
+	if sc.maxB > 0 && bound > sc.maxB {
+		bound = sc.maxB
 	}
 	execs, complete := exploreSchedules(bound, r.Shard, r.NShards, run, r.TimeUp)
 	r.ExtraAdd("executions_"+sc.name, int64(execs))
